@@ -22,6 +22,9 @@ pub const FILE_NAMES: &[&str] = &[
     "z-last.sol",
     "- dash.sol",
     "### Lines.sol",
+    "a.sol:5",
+    " lead and trail .sol",
+    "tab\there.sol",
     "## Low Risk.sol",
 ];
 
